@@ -209,11 +209,10 @@ func registerAtom(s string, t *T) {
 func drivenAtoms(names []string) (string, map[string]bool, []map[string]bool) {
 	byDriver := map[string][]string{}
 	for _, a := range names {
-		tv, ok := atomTerms.Load(a)
-		if !ok {
+		t := atomTermOf(a)
+		if t == nil {
 			continue
 		}
-		t := tv.(*T)
 		bt := map[string]*T{}
 		baseTerms(t, bt)
 		if len(bt) != 1 {
@@ -255,8 +254,7 @@ func drivenAtoms(names []string) (string, map[string]bool, []map[string]bool) {
 		vec := map[string]bool{}
 		key := ""
 		for _, a := range byDriver[best] {
-			tv, _ := atomTerms.Load(a)
-			x, ok := evalTerm(tv.(*T), map[string]*big.Int{best: big.NewInt(v)})
+			x, ok := evalTerm(atomTermOf(a), map[string]*big.Int{best: big.NewInt(v)})
 			if !ok {
 				continue
 			}
@@ -394,4 +392,21 @@ func canonLay(l *Lay) *Lay {
 		c.Cases = append(c.Cases, nc)
 	}
 	return &c
+}
+
+// atomTermOf: the term registered for the atom, or for its canonical spelling (negated as needed).
+func atomTermOf(a string) *T {
+	if tv, ok := atomTerms.Load(a); ok {
+		return tv.(*T)
+	}
+	if k, flip := canonAtom(a); k != a {
+		if tv, ok := atomTerms.Load(k); ok {
+			t := tv.(*T)
+			if flip {
+				return &T{K: "un", Op: token.NOT, Args: []*T{t}, Typ: t.Typ}
+			}
+			return t
+		}
+	}
+	return nil
 }
